@@ -528,7 +528,7 @@ proof fn theorem_rename_onto_existing_keeps_both(f: Fs, a: P, b: P)
 #[verifier::external_body] pub struct CpRest { _o: () }
 /// stand-in of working_log::Checkpoint: the three fields append_checkpoint reads or writes, everything else opaque
 pub struct Checkpoint { pub transcript: Option<Transcript>, pub agent_id: Option<AgentId>, pub agent_metadata: Option<Metadata>, pub rest: CpRest }
-pub struct RewriteLogEvent { pub _opaque: () }
+#[verifier::external_body] pub struct RewriteLogEvent { _o: () }
 impl Checkpoint {
     #[verifier::external_body] pub fn clone(&self) -> (r: Checkpoint) ensures r == *self, { unimplemented!() }
 }
